@@ -25,6 +25,10 @@ func Range(c Collection, ids []string, filter *Filter, sort []string, size uint,
 				res := c.At(i)
 				if res.Get("id").(string) == id {
 					col.col = append(col.col, res)
+
+					// A resource is selected once, even if its ID is
+					// listed several times.
+					break
 				}
 			}
 		}
